@@ -1,6 +1,8 @@
 import LSProofs.Gen.Decode
 import LSProofs.Gen.Collect
 import LSProofs.Gen.Extend
+import LSProofs.Gen.Bytes
+import LSProofs.Gen.CloneDrop
 /-!
 # The remaining `Extend` / `FromIterator` impls and `from_utf16_lossy`, translated, are the model's loops
 
@@ -168,5 +170,54 @@ theorem from_utf16_lossy_tie {w : World} {d : Nat} (hw : Wf w) (hd : w.get d = n
   erw [ht]
   rcases withCapacity rf w.heap ((u.length + 1) / 2) with ⟨o, hp0⟩
   cases o <;> simp only [] <;> (generalize collectOut _ _ _ = x; cases x <;> rfl)
+
+end LS.GenTie
+
+namespace LS.GenTie
+
+/-! ### the `From` conversions and `FromStr` -/
+
+/-- `From<String>`, `From<&String>`, `From<Box<str>>` are `From<&str>`: `Repr::from_str` unwrapped -/
+theorem from_string_is (t : Str) (s : St) :
+    GenRepr.LeanString.from_string t s = GenRepr.LeanString.from_str_ref t s := by
+  unfold GenRepr.LeanString.from_string GenRepr.LeanString.from_str_ref; rfl
+theorem from_string_ref_is (t : Str) (s : St) :
+    GenRepr.LeanString.from_string_ref t s = GenRepr.LeanString.from_str_ref t s := by
+  unfold GenRepr.LeanString.from_string_ref GenRepr.LeanString.from_str_ref; rfl
+theorem from_box_is (t : Str) (s : St) :
+    GenRepr.LeanString.from_box t s = GenRepr.LeanString.from_str_ref t s := by
+  unfold GenRepr.LeanString.from_box GenRepr.LeanString.from_str_ref; rfl
+
+/-- `From<char>`: the inline value of the character's bytes -/
+theorem from_char_conv_step (c : Chr) (h : c.b.length ≤ 4) (s : St) :
+    GenRepr.LeanString.from_char_conv c s = .next (.inl (inlNew c.b)) s := by
+  unfold GenRepr.LeanString.from_char_conv
+  rt_step [call_norm, from_char_step c h, norm_next]
+
+/-- `FromStr::from_str` is `Repr::from_str` with the value wrapped: `Ok` or `Err(ReserveError)`, never a panic -/
+theorem from_str_trait_is (t : Str) (s : St) :
+    GenRepr.LeanString.from_str_trait t s = norm (GenRepr.Repr.from_str t s) := by
+  unfold GenRepr.LeanString.from_str_trait
+  rw [bind_ap, call_norm]
+  cases h : GenRepr.Repr.from_str t s with
+  | next a s' => cases a <;> simp only [norm, bind_ap, rs_map_ok, rs_map_err, lean_string_ctor_ap, pure_ap]
+  | done a s' => cases a <;> simp only [norm, bind_ap, rs_map_ok, rs_map_err, lean_string_ctor_ap, pure_ap]
+  | pidx s' => rfl
+  | palloc s' => rfl
+  | pcb s' => rfl
+  | ub u => rfl
+
+/-- `From<&LeanString>` is `clone` of the other value: one more reference to its buffer (or a copy of the two words) -/
+theorem from_ls_ref_step (other : Handle) (rf : Refuse) (st : List Bytes) (hp : Heap) (r : Handle) (hrc : RcSmall hp) :
+    GenRepr.LeanString.from_ls_ref other ⟨rf, st, hp, r⟩ =
+      match shallowClone hp other with
+      | .ok (hp', r') => .next r' ⟨rf, st, hp', r⟩
+      | .error u => .ub u := by
+  unfold GenRepr.LeanString.from_ls_ref
+  have hc := clone_step ⟨rf, st, hp, other⟩ hrc
+  simp only at hc
+  cases hs : shallowClone hp other with
+  | error u => rt_step [onRepr_ap, call_norm, hc, hs, norm_ub]
+  | ok pr => rt_step [onRepr_ap, call_norm, hc, hs, norm_next]
 
 end LS.GenTie
